@@ -8,7 +8,7 @@ import "testing"
 // xorshift sequence: the corpus is the same on every run.
 func SeedCorpus(f *testing.F) {
 	for s := uint64(1); s <= 6; s++ {
-		b := make([]byte, 8192)
+		b := make([]byte, 1024+512*int(s%3))
 		x := s * 0x9e3779b97f4a7c15
 		for i := range b {
 			x ^= x << 13
